@@ -16,6 +16,8 @@ Time has the granularity of the extraction: an operation at index `t` owns the t
   the DMA that fills a weight buffer: `[t, t]`, and `[t-1, t]` if the scheduler decided to pre-buffer it
   under the previous operation (`pre_buffer`).
 * `ioProblems` — network inputs are live from tick 0, network outputs until the tick after the last operation.
+* `regressions` — ticks follow the execution order: along the command sequence the time index never decreases
+  (operations whose commands interleave — a cascade — must therefore share one index).
 * `clobbers`   — two different tensors may share one `LiveRange` object (hence one address) only if no value is
   lost: between the write of a value and each read of it no *other* operation writes a different tensor of
   the same `LiveRange`.  (Positions are command positions, so this is finer than ticks across operations; the
@@ -105,6 +107,13 @@ def ioProblems (n : Net) : List Need :=
   (n.inputs.map (fun x => (⟨x, 0, 0⟩ : Need)) ++
    n.outputs.map (fun x => (⟨x, (lastTick n : Int) + 1, (lastTick n : Int) + 1⟩ : Need))).filter (fun d => !d.met n)
 
+/-- commands whose time index is smaller than that of the command executed just before them -/
+def regressionsFrom : Nat → List Cmd → List (Cmd × Nat)
+  | _, [] => []
+  | prev, c :: rest => (if c.time < prev then [(c, prev)] else []) ++ regressionsFrom c.time rest
+
+def regressions (n : Net) : List (Cmd × Nat) := regressionsFrom 0 n.cmds
+
 def lrOf (n : Net) (t : Nat) : Option Nat := (rangeOf n t).map (·.lr)
 
 /-- Walking backwards from a read of `t` (range object `l`) by operation `op`: `before` holds the earlier commands,
@@ -132,10 +141,13 @@ structure Verdict where
   uncovered : List Need
   io : List Need
   clobbers : List (Cmd × Nat × Cmd)
+  regressions : List (Cmd × Nat)
 deriving Repr
 
-def check (n : Net) : Verdict := { uncovered := uncovered n, io := ioProblems n, clobbers := clobbers n }
+def check (n : Net) : Verdict :=
+  { uncovered := uncovered n, io := ioProblems n, clobbers := clobbers n, regressions := regressions n }
 
-def Verdict.ok (v : Verdict) : Bool := v.uncovered.isEmpty && v.io.isEmpty && v.clobbers.isEmpty
+def Verdict.ok (v : Verdict) : Bool :=
+  v.uncovered.isEmpty && v.io.isEmpty && v.clobbers.isEmpty && v.regressions.isEmpty
 
 end VelaVerif.LiveRangeSpec
